@@ -1,4 +1,6 @@
 import ColaVerif.Lemmas.LogDetSL
+import ColaVerif.Lemmas.LogDetKrylov
+import ColaVerif.Lemmas.KrylovCompose
 
 /-!
 # C07 — slogdet / logdet equal the determinant's phase and log-magnitude
@@ -21,6 +23,16 @@ Theorems:
   `C07_combine_mul`, `C07_combine_pow`, `C07_cholesky`, `C07_kron_exponents`,
   `C07_bdiag_multiplicities`, `C07_perm_parity`.
 
+* `C07_slogdet_krylov` — the same conclusion with the Lanczos | Arnoldi contract DISCHARGED into its
+  parts (`TrlogOfParts`): the kernel returns the exact trace (C08) of a matrix that is the logarithm of
+  the represented matrix in the sense of C09; `C07_exp_trace_log` (`exp (tr log A) = det A` for every
+  non-singular diagonalisable `A`), `C07_krylov_columns` (the matrix whose columns are the vectors
+  `Qᵢ Pᵢ (f(θᵢ) ⊙ Pᵢ⁻¹ e₁)` returned for the identity probes IS `f(A)` when every factorisation is
+  complete — which `Lemmas/KrylovCompose.lean` proves for the loop models of C14 / C15 run to Krylov
+  exhaustion) — what remains a contract there is LAPACK's small eigendecomposition;
+* `C07_phase_exponent_not_mod_two`, `C07_diag_sum_of_logs` — regression lemmas: the exponents of the
+  Kronecker / BlockDiag rules act on a complex phase; the Diagonal / Triangular rule returns `Σ log |dᵢ|`.
+
 Hypotheses: `A.wf`, `A.dupSlice = false`, `A.HermOK` (as in C01: `to_dense()` is the represented
 matrix), `A.triTrue` (Triangular operators are triangular — the constructor's promise,
 `C07_triTrue_needed`), `A.sqMembers` (members of Kronecker / BlockDiag nodes are square — true of
@@ -32,7 +44,7 @@ of the logarithm — are violations of the last contract by the real kernels).
 -/
 
 namespace C07
-open Op
+open Op MatFun Matrix
 
 section exact
 variable {R : Type} [CommRing R] [StarRing R] [DecidableEq R]
@@ -266,6 +278,143 @@ example :
   · simp [claimedDet, slogdetG, slogdetAt, allOk, Except.map, SLOps.diagFold, SLOps.mulAll, detOps,
       Op.cols, Op.dotSum, permEven, permCycles, permLoop, permWalk, List.range, List.range.loop]
 
+
+/-! ## the Lanczos | Arnoldi rule as a theorem about its parts -/
+
+/-- **`exp (tr log A) = det A`**: for every matrix function `L = lg(A)` (specification of C09) of a
+scalar `lg` with `exp (lg a) = a` on the spectrum — in particular the principal logarithm on a
+non-singular diagonalisable `A`. -/
+theorem C07_exp_trace_log {ι : Type} [Fintype ι] [DecidableEq ι] {A L : Matrix ι ι ℂ}
+    (h : IsMatFunOn {z : ℂ | z ≠ 0} Complex.log A L) : Complex.exp (Matrix.trace L) = Matrix.det A :=
+  exp_trace_matFun Complex.log exp_clog h
+
+/-- **the matrix the exact trace probes, column by column**: if for every identity probe `e_i` the
+`i`-th column of `L` is the vector `Qᵢ Pᵢ (f(θᵢ) ⊙ Pᵢ⁻¹ (cᵢ e))` that `LanczosUnary` / `ArnoldiUnary`
+return from a complete factorisation `A Qᵢ = Qᵢ Tᵢ` started from `e_i = cᵢ • Qᵢ e` (discharged from the
+loop models of C14 / C15 by `KrylovCompose.lanczos_unary_exact` / `arnoldi_unary_exact`), with the small
+eigendecomposition contract `Tᵢ Pᵢ = Pᵢ diag θᵢ`, `Pᵢ⁻¹ Pᵢ = 1`, then `L = f(A)`. -/
+theorem C07_krylov_columns {n : ℕ} {S : Set ℂ} {A L : Matrix (Fin n) (Fin n) ℂ}
+    (hA : DiagonalisableOn S A) (f : ℂ → ℂ)
+    (hcol : ∀ i : Fin n, ∃ (m : ℕ) (Q : Matrix (Fin n) (Fin m) ℂ) (T P Pi : Matrix (Fin m) (Fin m) ℂ)
+      (θ e : Fin m → ℂ) (c : ℂ), A * Q = Q * T ∧ Pi * P = 1 ∧ T * P = P * Matrix.diagonal θ ∧
+        (_root_.Pi.single i (1 : ℂ) : Fin n → ℂ) = c • Q *ᵥ e ∧
+        (fun a => L a i) = KrylovPoly.krylovVec Q P Pi θ f (c • e)) :
+    IsMatFunOn S f A L := MatFun.matFun_of_krylov_columns hA f hcol
+
+section code
+variable [DecidableEq ℂ]
+
+/-- **C07 with the Krylov contract discharged**: the same conclusion as `C07_slogdet`, where the
+hypothesis on the Lanczos | Arnoldi kernel is no longer "`exp` of its result is the determinant" but
+`TrlogOfParts`: its result is the trace (exact trace, C08) of a matrix that is the logarithm `lg` of
+the represented matrix in the sense of C09 (`C07_krylov_columns` + C14 / C15 for the Krylov operators).
+`lg` is any branch with `exp (lg a) = a` on `S` (`Complex.log` on `{z ≠ 0}`: `C07_exp_trace_log`). -/
+theorem C07_slogdet_krylov (K : DetKernels ℂ ℂ) (lg : ℂ → ℂ) (S : Set ℂ)
+    (hlg : ∀ a ∈ S, Complex.exp (lg a) = a)
+    (hchol : ∀ (n : Nat) (M L : MatF ℂ), K.chol n M = .ok L →
+      (∀ i j, i < n → j < n → M i j = star (M j i)) →
+      (∀ i j, i < n → j < n → i < j → L i j = 0) ∧ EqOn n n (mmul n L (conjM (transposeM L))) M)
+    (hlu : ∀ (n : Nat) (M : MatF ℂ) (plu : List Nat × MatF ℂ × MatF ℂ), K.lu n M = .ok plu →
+      plu.1.length = n ∧ (∀ t ∈ plu.1, t < plu.1.length) ∧ plu.1.Nodup ∧
+      (∀ i j, i < n → j < n → i < j → plu.2.1 i j = 0) ∧
+      (∀ i j, i < n → j < n → j < i → plu.2.2 i j = 0) ∧
+      EqOn n n (mmul n (permDen plu.1) (mmul n plu.2.1 plu.2.2)) M)
+    (hparts : TrlogOfParts K lg S) (la : LogAlg) (ta : TraceAlg)
+    (A : Op ℂ) (hwf : A.wf = true) (hnd : A.dupSlice = false) (hh : A.HermOK)
+    (ht : A.triTrue = true) (hs : A.sqMembers = true) (s : ℂ) (l : ℝ)
+    (h : slogdetG slOps K la ta A = .ok (s, l)) :
+    let d := Matrix.det (MatF.toMatrix A.rows A.rows A.den.f)
+    s * ((Real.exp l : ℝ) : ℂ) = d ∧
+      (d ≠ 0 → ‖s‖ = 1 ∧ l = Real.log ‖d‖ ∧ s = d / ((‖d‖ : ℝ) : ℂ)) :=
+  C07_slogdet K (kernelsOK_of_parts K lg S hlg hchol hlu hparts) la ta A hwf hnd hh ht hs s l h
+
+/-- kernels whose Krylov part is genuinely "trace of the logarithm" on operators that represent a
+non-singular DIAGONAL matrix (where the logarithm is computable without an eigensolver) -/
+noncomputable def diagLogKernels : DetKernels ℂ ℂ :=
+  ⟨fun _ _ => .error "none", fun _ _ => .error "none",
+   fun _ _ A => open Classical in
+     if (∀ i j, i < A.rows → j < A.rows → i ≠ j → A.den.f i j = 0) ∧ (∀ i, i < A.rows → A.den.f i i ≠ 0)
+     then .ok (∑ i ∈ Finset.range A.rows, Complex.log (A.den.f i i)) else .error "none"⟩
+
+/-- the hypotheses of `C07_slogdet_krylov` are satisfiable with a kernel that answers -/
+theorem diagLogKernels_parts : TrlogOfParts diagLogKernels Complex.log {z : ℂ | z ≠ 0} := by
+  intro la ta A t h _ _
+  simp only [diagLogKernels] at h
+  split at h
+  · rename_i hc
+    simp only [Except.ok.injEq] at h
+    refine ⟨Matrix.diagonal (fun i : Fin A.rows => Complex.log (A.den.f i i)), ?_, ?_⟩
+    · have hA : MatF.toMatrix A.rows A.rows A.den.f = Matrix.diagonal (fun i : Fin A.rows => A.den.f i i) := by
+        ext i j
+        by_cases hij : i = j
+        · subst hij; simp [MatF.toMatrix_apply]
+        · rw [Matrix.diagonal_apply_ne _ hij, MatF.toMatrix_apply]
+          exact hc.1 i j i.isLt j.isLt (fun e => hij (Fin.ext e))
+      rw [hA]
+      exact IsMatFunOn.diagonal Complex.log _ (fun i => hc.2 i i.isLt)
+    · rw [Matrix.trace_diagonal, ← h, Fin.sum_univ_eq_sum_range (fun i => Complex.log (A.den.f i i))]
+  · simp at h
+
+/-- … and it answers on a non-trivial input: the `2 × 2` operator `diag(2, -3)` given as a Dense
+leaf goes to the Arnoldi base rule and the kernel returns `log 2 + log (-3)` -/
+example :
+    let A : Op ℂ := .dense .c128 2 2 (fun i j => if i = j then (if i = 0 then 2 else -3) else 0)
+    slogdetG slOps diagLogKernels .arnoldi .exact A
+      = .ok (slOps.ofTrLog (Complex.log 2 + Complex.log (-3))) := by
+  intro A
+  have hk : diagLogKernels.trlog .arnoldi .exact A = .ok (Complex.log 2 + Complex.log (-3)) := by
+    simp only [diagLogKernels]
+    rw [if_pos]
+    · simp [A, Op.rows, Op.den, Finset.sum_range_succ]
+    · constructor
+      · intro i j hi hj hij
+        simp [A, Op.den, hij]
+      · intro i hi
+        simp only [A, Op.rows] at hi
+        interval_cases i <;> simp [A, Op.den]
+  simp only [slogdetG, A, slogdetAt, slogdetBase, resolveAuto, Op.rows, Op.cols]
+  simp only [bne_self_eq_false, Bool.false_eq_true, if_false]
+  rw [show (Op.dense DType.c128 2 2 fun i j => if i = j then if i = 0 then (2:ℂ) else -3 else 0) = A from rfl, hk]
+  rfl
+
+end code
+
+/-! ## regression lemmas for the exponents and the sum of logarithms -/
+
+/-- the exponents of the Kronecker / BlockDiag rules act on the PHASE, not on a `±1` sign: for
+`ScalarMul(i, 1) ⊗ I₂` the rule claims `i² · 1 = -1` (the determinant); taking the exponent modulo 2
+would claim `i⁰ = 1`. -/
+theorem C07_phase_exponent_not_mod_two :
+    (SLOps.pow slOps (Complex.I, 0) 2).1 = -1 ∧ (SLOps.pow slOps (Complex.I, 0) (2 % 2)).1 = 1 ∧
+      (-1 : ℂ) ≠ 1 := by
+  refine ⟨?_, ?_, ?_⟩
+  · simp [slOps]
+  · simp [slOps]
+  · norm_num
+
+/-- second component of a product of pairs = the SUM of the second components -/
+theorem mulAll_snd (vs : List (ℂ × ℝ)) : (SLOps.mulAll slOps vs).2 = (vs.map Prod.snd).sum := by
+  unfold SLOps.mulAll
+  have : ∀ (vs : List (ℂ × ℝ)) (a : ℂ × ℝ), (vs.foldl slOps.mul a).2 = a.2 + (vs.map Prod.snd).sum := by
+    intro vs
+    induction vs with
+    | nil => intro a; simp
+    | cons v vs ih =>
+      intro a
+      rw [List.foldl_cons, ih]
+      simp only [slOps, List.map_cons, List.sum_cons]
+      ring
+  rw [this]
+  simp [slOps]
+
+/-- **the Diagonal / Triangular rule returns the SUM of the logarithms** `Σ log |dᵢ|` (it never forms
+the product `Π |dᵢ|`, which leaves the floating-point range for long diagonals) -/
+theorem C07_diag_sum_of_logs (n : Nat) (d : Nat → ℂ) :
+    (SLOps.diagFold slOps n d).2 = ((List.range n).map (fun i => Real.log ‖d i‖)).sum := by
+  unfold SLOps.diagFold
+  rw [mulAll_snd, List.map_map]
+  rfl
+
 end C07
 
 #print axioms C07.C07_det
@@ -282,3 +431,9 @@ end C07
 #print axioms C07.C07_triTrue_needed
 #print axioms C07.C07_sqMembers_needed
 #print axioms C07.C07_kernel_contract_needed
+#print axioms C07.C07_exp_trace_log
+#print axioms C07.C07_krylov_columns
+#print axioms C07.C07_slogdet_krylov
+#print axioms C07.diagLogKernels_parts
+#print axioms C07.C07_phase_exponent_not_mod_two
+#print axioms C07.C07_diag_sum_of_logs
